@@ -34,7 +34,7 @@ func (c15) Runs(tier string) int {
 	if tier == "thorough" {
 		return 600
 	}
-	return 40
+	return 80
 }
 func (c15) RequiredProbes(string) []string {
 	return []string{"mutating_route_refused", "read_route_still_works"}
